@@ -557,7 +557,7 @@ class Scene(Geometry3D):
           Summed area of every instanced geometry
         """
         # get the area of every geometry that has a volume attribute
-        volume = {n: g.volume for n, g in self.geometry.items() if hasattr(g, "area")}
+        volume = {n: g.volume for n, g in self.geometry.items() if hasattr(g, "volume")}
         # sum the volume including instancing and the scale of
         # each instance: volume scales by the determinant
         total = 0.0
